@@ -274,6 +274,12 @@ impl<'tcx> Cx<'tcx> {
                 }
             }
         }
+        // a reference to a `static` item: name the item (its value, when it is an integer table, is emitted with the consts)
+        if let Const::Val(mir::ConstValue::Scalar(rustc_middle::mir::interpret::Scalar::Ptr(ptr, _)), _) = c {
+            if let rustc_middle::mir::interpret::GlobalAlloc::Static(sdid) = tcx.global_alloc(ptr.provenance.alloc_id()) {
+                items.push(("static", esc(&tcx.def_path_str(sdid))));
+            }
+        }
         if let Const::Val(mir::ConstValue::ZeroSized, _) = c {
             items.push(("zst", "true".into()));
         } else if !is_scalar_ty {
@@ -700,6 +706,36 @@ impl Callbacks for Extract {
                         ("kind", esc(if def.is_enum() { "enum" } else { "struct" })),
                         ("variants", jlist(vars)),
                     ]));
+                }
+                DefKind::Static { .. } => {
+                    // lookup tables kept in statics: arrays of unsigned integers, element by element
+                    let ty = tcx.type_of(did).instantiate_identity().skip_norm_wip();
+                    if let ty::Array(elem, n) = ty.kind() {
+                        let esz: Option<usize> = match elem.kind() {
+                            ty::Uint(u) => Some(u.bit_width().map(|w| (w / 8) as usize).unwrap_or(8)),
+                            _ => None,
+                        };
+                        if let (Some(esz), Some(len), Ok(alloc)) = (esz, n.try_to_target_usize(tcx), tcx.eval_static_initializer(did)) {
+                            let a = alloc.inner();
+                            let end = esz * len as usize;
+                            if len <= 65536 && end <= a.len() {
+                                let bytes = a.inspect_with_uninit_and_ptr_outside_interpreter(0..end);
+                                let mut elems = Vec::new();
+                                for k in 0..len as usize {
+                                    let mut v: u128 = 0;
+                                    for j in 0..esz {
+                                        v |= (bytes[k * esz + j] as u128) << (8 * j);
+                                    }
+                                    elems.push(v.to_string());
+                                }
+                                consts.push(jobj(vec![
+                                    ("path", esc(&tcx.def_path_str(did))),
+                                    ("ty", cx.ty(ty)),
+                                    ("elems", jlist(elems)),
+                                ]));
+                            }
+                        }
+                    }
                 }
                 DefKind::Const { .. } | DefKind::AssocConst { .. } => {
                     let generics = tcx.generics_of(did);
